@@ -124,7 +124,13 @@ impl Paragraph {
 
 impl std::fmt::Display for Field {
     fn fmt(&self, f: &mut std::fmt::Formatter) -> std::fmt::Result {
-        let lines = self.value.lines().collect::<Vec<_>>();
+        // like str::lines(), but a trailing empty line is kept: the reader produces one for a
+        // whitespace-only continuation line, and writing the bare value would end the paragraph
+        let lines = self
+            .value
+            .split('\n')
+            .map(|l| l.strip_suffix('\r').unwrap_or(l))
+            .collect::<Vec<_>>();
         if lines.len() > 1 {
             write!(f, "{}:", self.name)?;
             for line in lines {
